@@ -1288,6 +1288,7 @@ def check_tables(ctx, rng, ms, schema, good, bad_objs, s, detail, codec="struct"
             if rows[j] != b:
                 ctx.violation("table/bytes-differ", f"{kind}.add_row stored {rows[j].hex()} expected {b.hex()} "
                                                     f"obj={jdump(obj)} schema={s}", detail)
+                return  # never decode bytes of unknown layout through the table (may loop on garbage lengths)
             r = table[j]
             got = r.metadata
             if not equal(r.metadata, got):
@@ -1330,15 +1331,16 @@ def check_tables(ctx, rng, ms, schema, good, bad_objs, s, detail, codec="struct"
             table[j] = table[j].replace(metadata=good[perm[j]][0])
         rows = column_rows(table)
         for j in range(n):
-            if rows[j] != good[perm[j]][1] or not equal(table[j].metadata, good[perm[j]][2]):
+            if rows[j] != good[perm[j]][1] or not equal(table[j].metadata, good[perm[j]][2]):  # (short-circuit)
                 ctx.violation("table/setitem-differs", f"{kind}[{j}] = row.replace(metadata=obj) stored "
                                                        f"{rows[j].hex()} expected {good[perm[j]][1].hex()}", detail)
-                break
+                return
         # packset_metadata with validate_and_encode_row (the documented bulk idiom) restores the first order
         ctx.count("table/packset")
         table.packset_metadata([ms.validate_and_encode_row(g[0]) for g in good])
         if column_rows(table) != [g[1] for g in good]:
             ctx.violation("table/packset-differs", f"{kind}.packset_metadata did not store the encoded rows", detail)
+            return
         # append(row): a decoded row re-encodes to the same bytes
         if codec == "struct":
             for j in range(n):
